@@ -497,6 +497,104 @@ Proof.
   rewrite H in Hin. destruct Hin.
 Qed.
 
+(* ====================================================================== *)
+(* 9. updateRoots leaves the roots at their selected versions               *)
+(* ====================================================================== *)
+Lemma ver_le_antisym v w : ver_le v w -> ver_le w v -> v = w.
+Proof.
+  unfold ver_le. intros H1 H2. destruct (ver_cmp v w) eqn:E; try congruence.
+  - apply (tc_eq ver_cmp ver_cmp_total). exact E.
+  - rewrite (tc_opp ver_cmp ver_cmp_total), E in H2. simpl in H2. congruence.
+Qed.
+
+Lemma max_ver_set_eq l l' : set_eq l l' -> max_ver l = max_ver l'.
+Proof.
+  intros H. destruct (max_ver l) as [v|] eqn:E, (max_ver l') as [v'|] eqn:E'; auto.
+  - apply max_ver_spec in E, E'. destruct E as [H1 H2], E' as [H1' H2']. f_equal.
+    apply ver_le_antisym; [apply H2', H, H1 | apply H2, H, H1'].
+  - apply max_ver_spec in E. apply max_ver_none in E'. subst l'. destruct E as [H1 _]. apply H in H1. destruct H1.
+  - apply max_ver_spec in E'. apply max_ver_none in E. subst l. destruct E' as [H1 _]. apply H in H1. destruct H1.
+Qed.
+
+Section Settled.
+  Variable u : universe.
+
+  (* every root is at the version the module graph of the roots selects for its path *)
+  Definition settled (rs : reqs) : Prop :=
+    forall r, In r (r_roots rs) -> selected u rs (n_mpath r) = Some (snd r).
+
+  Lemma graph_nodes_set_eq rs rs' :
+    set_eq (r_roots rs) (r_roots rs') -> set_eq (graph_nodes u rs) (graph_nodes u rs').
+  Proof.
+    intros H n. unfold graph_nodes. rewrite !in_app_iff, !in_flat_map. split.
+    - intros [Hn|[r [Hr Hn]]]; [left; apply H, Hn | right; exists r; split; [apply H, Hr | exact Hn]].
+    - intros [Hn|[r [Hr Hn]]]; [left; apply H, Hn | right; exists r; split; [apply H, Hr | exact Hn]].
+  Qed.
+
+  Lemma selected_set_eq rs rs' mp :
+    set_eq (r_roots rs) (r_roots rs') -> selected u rs mp = selected u rs' mp.
+  Proof.
+    intros H. unfold selected. apply max_ver_set_eq. intros v. rewrite !in_map_iff.
+    pose proof (graph_nodes_set_eq rs rs' H) as G.
+    split; intros [n [E Hn]]; exists n; (split; [exact E|]); apply filter_In in Hn; apply filter_In;
+      (split; [apply G; tauto | tauto]).
+  Qed.
+
+  Lemma selected_root_some rs r : In r (r_roots rs) -> selected u rs (n_mpath r) <> None.
+  Proof.
+    intros Hr H. apply (max_over_none _ _ H r); [|reflexivity].
+    unfold graph_nodes. apply in_or_app. left. exact Hr.
+  Qed.
+
+  Lemma dedup_paths_incl seen l x : In x (dedup_paths seen l) -> In x l.
+  Proof.
+    revert seen. induction l as [|n l IH]; intros seen; simpl; [tauto|].
+    destruct (existsb _ seen); simpl; intros H.
+    - right. eapply IH; eauto.
+    - destruct H as [<-|H]; [left; reflexivity | right; eapply IH; eauto].
+  Qed.
+
+  Lemma settle_settled fuel ds : forall roots roots',
+    settle u fuel ds roots = Some (Some roots') -> settled (mkR (sort_dedup node_cmp roots') ds).
+  Proof.
+    induction fuel as [|f IH]; intros roots roots'; simpl; [discriminate|].
+    destruct (graph_ok u (mkR roots ds)); [|discriminate].
+    destruct (forallb _ roots) eqn:Hconv; [|apply IH].
+    intros [= <-].
+    set (f0 := fun r : node => match selected u (mkR roots ds) (n_mpath r) with
+                               | Some v => (fst r, v) | None => r end).
+    assert (Hsub : forall x, In x (reselect u ds roots) -> exists r, In r roots /\ x = f0 r).
+    { intros x Hx. unfold reselect in Hx. apply dedup_paths_incl in Hx. apply in_map_iff in Hx.
+      destruct Hx as [r [E Hr]]. exists r. split; [exact Hr | symmetry; exact E]. }
+    assert (Hin : forall r, In r roots -> In r (reselect u ds roots)).
+    { intros r Hr. rewrite forallb_forall in Hconv. specialize (Hconv r Hr).
+      apply existsb_exists in Hconv. destruct Hconv as [y [Hy E]]. apply node_eqb_iff in E. subst y. exact Hy. }
+    (* every root already carries its selected version *)
+    assert (Hsel : forall r, In r roots -> selected u (mkR roots ds) (n_mpath r) = Some (snd r)).
+    { intros r Hr. destruct (Hsub r (Hin r Hr)) as [r' [Hr' E]]. unfold f0 in E.
+      destruct (selected u (mkR roots ds) (n_mpath r')) as [v|] eqn:Es.
+      - subst r. simpl. pose proof Es as Es'. apply max_over_spec in Es'. destruct Es' as [_ [Hm _]].
+        replace (n_mpath (fst r', v)) with (n_mpath r'); [exact Es|].
+        unfold n_mpath in *. simpl in *. congruence.
+      - exfalso. exact (selected_root_some (mkR roots ds) r' Hr' Es). }
+    assert (Hset : set_eq (sort_dedup node_cmp (reselect u ds roots)) roots).
+    { intros x. rewrite (In_sort_dedup node_cmp node_cmp_total). split.
+      - intros Hx. destruct (Hsub x Hx) as [r [Hr ->]]. unfold f0. rewrite (Hsel r Hr).
+        destruct r; exact Hr.
+      - apply Hin. }
+    intros r Hr. simpl in Hr.
+    rewrite (selected_set_eq (mkR (sort_dedup node_cmp (reselect u ds roots)) ds) (mkR roots ds) _ Hset).
+    apply Hsel. apply Hset. exact Hr.
+  Qed.
+
+  Theorem update_roots_settled ifuel rs l add rs2 :
+    update_roots u ifuel rs l add = Some (Some rs2) -> settled rs2.
+  Proof.
+    unfold update_roots. destruct (settle u ifuel (r_defaults rs) _) as [[roots'|]|] eqn:Es; try discriminate.
+    intros [= <-]. eapply settle_settled; eauto.
+  Qed.
+End Settled.
+
 Section Sound.
   Variable u : universe.
   Variable mm : mainmod.
@@ -590,15 +688,18 @@ Section Sound.
     exists rs l, load u mm ifuel rs = Some l /\
                  existsb (fun e => entry_bad (snd e)) l = false /\
                  unique_paths (providers l) = true /\
-                 F = to_file (mkR (providers l) (r_defaults rs)).
+                 F = to_file (mkR (providers l) (r_defaults rs)) /\
+                 (rs = rs0 \/ settled u rs).
   Proof.
     induction fuel as [|f IH]; intros rs0 F; simpl; [discriminate|].
     destruct (load u mm ifuel rs0) as [l|] eqn:El; [|discriminate].
     destruct (to_add u rs0 l) as [|c add] eqn:Ea.
     - rewrite (no_add_no_new_defaults rs0 l Ea). intros H. apply finish_ok in H. simpl in H.
       exists rs0, l. tauto.
-    - destruct (update_roots u ifuel _ l (c :: add)) as [[rs2|]|]; try discriminate.
-      apply IH.
+    - destruct (update_roots u ifuel _ l (c :: add)) as [[rs2|]|] eqn:Eu; try discriminate.
+      intros H. apply IH in H. destruct H as [rs [l' [H1 [H2 [H3 [H4 H5]]]]]].
+      exists rs, l'. repeat split; auto. right. destruct H5 as [->|H5]; [|exact H5].
+      eapply update_roots_settled; eauto.
   Qed.
 
   Lemma map_fst_to_file rs : map fst (to_file rs) = r_roots rs.
@@ -608,7 +709,9 @@ Section Sound.
      stopped: every import of every reachable package resolves; the written entries
      are exactly the modules providing a reachable package, nothing unused; one
      entry per module path; each entry carries the version that the working roots
-     or the working module graph (maximum over its nodes) select *)
+     or the working module graph (maximum over its nodes) select; the working
+     requirements are the module file as read, or (as soon as tidy added a module)
+     have every root at its selected version *)
   Theorem resolve_sound fuel ifuel ds F :
     tidy u mm fuel ifuel ds = TOk F ->
     exists rs,
@@ -616,12 +719,13 @@ Section Sound.
       (forall n, In n (map fst F) <-> exists k, Reach u mm rs k /\ provides u mm rs k n) /\
       NoDup (map n_mpath (map fst F)) /\
       (forall n, In n (map fst F) ->
-                 root_selected rs (n_mpath n) = Some (snd n) \/ selected u rs (n_mpath n) = Some (snd n)).
+                 root_selected rs (n_mpath n) = Some (snd n) \/ selected u rs (n_mpath n) = Some (snd n)) /\
+      (rs = of_file mm ds \/ settled u rs).
   Proof.
-    unfold tidy. intros H. apply resolve_loop_ok in H. destruct H as [rs [l [Hl [Hb [Hu ->]]]]].
+    unfold tidy. intros H. apply resolve_loop_ok in H. destruct H as [rs [l [Hl [Hb [Hu [-> Hst]]]]]].
     exists rs. rewrite map_fst_to_file. simpl.
     assert (Hp := fun n => load_providers u mm ifuel rs l n Hl).
-    repeat split.
+    repeat split; [| | | | | exact Hst].
     - apply (load_bad u mm ifuel rs l Hl). exact Hb.
     - apply Hp.
     - apply Hp.
@@ -726,7 +830,7 @@ Section Output.
 
   Theorem tidy_output_wf fuel ifuel ds F : tidy u mm fuel ifuel ds = TOk F -> wf_file mm F.
   Proof.
-    unfold tidy. intros H. apply resolve_loop_ok in H. destruct H as [rs [l [Hl [Hb [Hu ->]]]]].
+    unfold tidy. intros H. apply resolve_loop_ok in H. destruct H as [rs [l [Hl [Hb [Hu [-> _]]]]]].
     apply to_file_wf.
     - apply providers_sorted.
     - apply unique_paths_iff, Hu.
